@@ -198,6 +198,8 @@ def uni_data(d):
             _U[d] = np.array([1.0] * 21 + [0.0] * 29)     # scipy's beta.fit raises on this column
         elif d == 'T':
             _U[d] = 5000.0 + 0.005 * np.random.RandomState(14).normal(size=40)      # spread 1e-6 of the magnitude, yet not constant
+        elif d == 'E':
+            _U[d] = np.array([0.3, 0.1 + 0.2] * 9 + [0.3])        # two distinct values one unit in the last place apart: not constant
         elif d == 'N':
             _U[d] = 3.0e-9 + 4.0e-10 * np.random.RandomState(15).normal(size=45)      # quantities of the order 1e-9 (lengths in metres): not constant either
         else:
@@ -206,7 +208,7 @@ def uni_data(d):
 
 
 UNI_X = np.concatenate([np.linspace(-30.0, 120.0, 31), [3.5, -1.0, 3.5 + 1e-9, -1.0 - 1e-9, 0.0, 1e-9, -1e-9, 1.0, 2.5],
-                        5000.0 + np.array([-0.02, -0.004, 0.0, 0.003, 0.011]), 1e-9 * np.array([2.2, 2.7, 3.0, 3.2, 3.9])])
+                        5000.0 + np.array([-0.02, -0.004, 0.0, 0.003, 0.011]), 1e-9 * np.array([2.2, 2.7, 3.0, 3.2, 3.9]), [0.3, 0.1 + 0.2, 0.30000000000000002, 0.29999999999999993]])
 UNI_Q = np.array([0.001, 0.05, 0.25, 0.5, 0.75, 0.95, 0.999])
 
 
@@ -556,7 +558,7 @@ def all_bindings():
     tg = {'c1': {}, 'c2': {'minimum': -5.0, 'maximum': 150.0}}
     kde = {'c1': {}, 'c2': {'bw_method': 'silverman'}, 'c3': {'sample_size': 25}}
     out = [
-        UniBinding('GaussianUnivariate', more_data=('T', 'N')), UniBinding('UniformUnivariate', more_data=('T', 'N')), UniBinding('BetaUnivariate'),
+        UniBinding('GaussianUnivariate', more_data=('T', 'N', 'E')), UniBinding('UniformUnivariate', more_data=('T', 'N', 'E')), UniBinding('BetaUnivariate'),
         UniBinding('GammaUnivariate'), UniBinding('LogLaplace'), UniBinding('StudentTUnivariate'),
         UniBinding('TruncatedGaussian', tg), UniBinding('GaussianKDE', kde, draw=('c3',), more_data=('T', 'N')),
         SelectingBinding(),
